@@ -40,3 +40,17 @@ package swagtool
 
 //@ func ForceOrderedJSON props C08,C14 havocs
 //@ ensures implies(result1 != nil, len(result0) == 0)
+
+// Parsers return nil exactly when the text is not a number of the requested kind (decided by strconv: assumed).
+//@ func ParseNumber props C11,C14
+//@ ensures implies(result != nil, fresh(result))
+//@ func ParseInteger props C11,C14
+//@ ensures implies(result != nil, fresh(result))
+//@ func ParseUInteger props C11,C14
+//@ ensures implies(result != nil, fresh(result))
+//@ func ParseBool props C11,C14
+//@ ensures implies(result != nil, fresh(result))
+
+//@ func ToOpenApiType props C06,C07,C11,C14 pure
+//@ ensures implies(typeName == "string", result == "string") && implies(typeName == "bool", result == "boolean") && implies(typeName == "int" || typeName == "int64" || typeName == "uint", result == "integer") && implies(typeName == "float64" || typeName == "float32", result == "number")
+//@ ensures result == "string" || result == "integer" || result == "boolean" || result == "number" || result == "binary" || result == "date-time" || result == "array" || result == "map" || result == "object"
